@@ -1077,7 +1077,7 @@ func (self *PathNode) Field(id thrift.FieldID, opts *Options) *PathNode {
 		return err
 	}
 	// fast path: use id to find the key.
-	if opts.StoreChildrenById && int(id) <= StoreChildrenByIdShreshold {
+	if opts.StoreChildrenById && int(id) <= StoreChildrenByIdShreshold && int(id) < len(self.Next) {
 		v := &self.Next[id]
 		if v.Path.t != 0 && v.Path.id() == id {
 			return v
@@ -1109,11 +1109,12 @@ func (self *PathNode) SetField(id thrift.FieldID, val Node, opts *Options) (bool
 		return false, err
 	}
 	// fast path: use id to find the key.
-	if opts.StoreChildrenById && int(id) <= StoreChildrenByIdShreshold {
-		v := &self.Next[id]
-		exist := v.Path.t != 0
-		v.Node = val
-		return exist, nil
+	if opts.StoreChildrenById && int(id) < StoreChildrenByIdShreshold && int(id) < len(self.Next) {
+		// only trust the slot if it really holds this field (it may be a hole, or hold an appended field)
+		if v := &self.Next[id]; v.Path.t == PathFieldId && v.Path.id() == id {
+			v.Node = val
+			return true, nil
+		}
 	}
 	// slow path: use linear search to find the id.
 	for i := StoreChildrenByIdShreshold; i < len(self.Next); i++ {
